@@ -1134,8 +1134,17 @@ impl<'a> G<'a> {
             }
             6 => {
                 self.label("for-int");
-                let n = E::Int(self.t.n(5) as i64);
-                let var = self.loop_var();
+                let mut n = E::Int(self.t.n(5) as i64);
+                let mut var = self.loop_var();
+                // `for n in n`: the bound is read in the enclosing scope, the loop variable only exists in the body
+                let ints: Vec<VarInfo> = self.visible().into_iter().filter(|v| v.ty == T::Int && v.name != "fuel").collect();
+                if self.fl.loop_var_shadowing && !ints.is_empty() && self.t.flip(1, 4) {
+                    let v = ints[self.t.n(ints.len())].clone();
+                    // keep the iteration count small whatever the variable holds
+                    n = E::Bin(Op::Mod, Box::new(E::Var(v.name.clone())), Box::new(E::Int(4)));
+                    var = v.name;
+                    self.label("loop-var-named-like-its-bound");
+                }
                 self.scopes.push(vec![VarInfo { name: var.clone(), ty: T::Int, mutable: false, captured: false }]);
                 self.loop_depth += 1;
                 let saved_base = std::mem::replace(&mut self.loop_base, self.operand_depth);
@@ -1161,7 +1170,15 @@ impl<'a> G<'a> {
                     (lit, et, false)
                 };
                 let mut binds = vec![];
-                let pat = self.irrefutable_pat(&elem, &mut binds, 1);
+                let mut pat = self.irrefutable_pat(&elem, &mut binds, 1);
+                // `for a in a`: the iterable is resolved in the enclosing scope
+                if over_var && self.fl.loop_var_shadowing && self.t.flip(1, 4) {
+                    if let E::Var(an) = &arr {
+                        binds = vec![(an.clone(), elem.clone())];
+                        pat = P::Bind(an.clone());
+                        self.label("loop-var-named-like-its-iterable");
+                    }
+                }
                 self.scopes.push(binds.into_iter().map(|(n, t)| VarInfo { name: n, ty: t, mutable: false, captured: false }).collect());
                 self.loop_depth += 1;
                 if over_var {
